@@ -345,7 +345,10 @@ pub fn encode(a: &[u128]) -> Vec<u128> {
     let ncor = a[6] as usize;
     for k in 0..ncor {
         let (w, pos, delta) = (a[7 + 3 * k], a[8 + 3 * k] as usize, a[9 + 3 * k] as u8);
-        if w == 0 {
+        if w == 4 {
+            // the provider holds only a prefix of the blob (complete outboard)
+            data.truncate(pos);
+        } else if w == 0 {
             if !data.is_empty() {
                 let p = pos % data.len();
                 data[p] ^= delta;
@@ -377,7 +380,7 @@ pub fn encode(a: &[u128]) -> Vec<u128> {
             for (i, it) in items.into_iter().enumerate() {
                 match it {
                     mixed::EncodedItem::Size(sz) => {
-                        if i != 0 || sz != data.len() as u64 {
+                        if i != 0 || sz != a[2] as u64 {
                             frame_ok = 0;
                         }
                     }
@@ -567,7 +570,9 @@ pub fn decode(a: &[u128]) -> Vec<u128> {
                         }
                     }
                 }
-                if !failed && it.tree() != t {
+                // accessor after the last step (also after an error)
+                let _ = failed;
+                if it.tree() != t {
                     tree_ok = 0;
                 }
             }
